@@ -5,7 +5,9 @@ pid = sys.argv[1]
 wt = sys.argv[2] if len(sys.argv) > 2 else f"/tmp/wt/bn{pid}"
 p = next(json.loads(l) for l in open('/verif/properties.jsonl') if json.loads(l)['id'] == pid)
 mech = "\n".join(f"    - {m['name']}: {m['where']}" for m in p['anchors'].get('mechanism', []))
-print(f"""You are helping to evaluate a verification effort for the open-source project koordinator-sh/koordinator (a Kubernetes scheduler / descheduler / node agent, written in Go). You have your own scratch git worktree of the repository at {wt} (detached HEAD of the pinned commit). Work ONLY inside {wt}; never touch /repo or /verif and do not read anything under /verif.
+import os
+hint=os.environ.get("BENIGN_HINT","")
+text=(f"""You are helping to evaluate a verification effort for the open-source project koordinator-sh/koordinator (a Kubernetes scheduler / descheduler / node agent, written in Go). You have your own scratch git worktree of the repository at {wt} (detached HEAD of the pinned commit). Work ONLY inside {wt}; never touch /repo or /verif and do not read anything under /verif.
 
 Here is a semantic property that the code base satisfies today:
 
@@ -33,3 +35,7 @@ Leave the worktree itself clean of the changes at the end (git checkout -- .) - 
 Environment notes: there is NO network. Use the default `go` (it switches to the cached Go 1.25 toolchain by itself); always pass -mod=mod to go build/test; do not set GOTOOLCHAIN or GOFLAGS. Example: `cd {wt} && go test -mod=mod -vet=off -count=1 ./pkg/scheduler/plugins/elasticquota/...`. Building a package the first time can take a minute or two. Do not run the whole repository test suite; the packages you touch (and packages that directly use the touched functions) are enough. Packages under pkg/koordlet/ (and anything importing them) cannot be compiled here without a workaround because a cgo header is missing: for those add `-overlay {wt}/.perf_overlay.json` to every go build / go test / go vet command (the file is already there; it swaps one cgo file for a stub and changes nothing else; do not add it to your patch). The machine is shared with other jobs: do not use more than 4 parallel processes (-p 4).
 
 In your final answer, summarise each refactoring in 2-3 lines (file, function, kind of refactoring) and confirm the verification results.""")
+if hint:
+    text=text.replace("Hard requirements for every refactoring:", hint+"\n\nHard requirements for every refactoring:")
+print(text)
+
